@@ -14,13 +14,16 @@ CONFIG = dict(
                "interleaving — delivery is a prefix of the swap order (exactly once, global and per-producer FIFO), Pop answers nil only when nothing is pending or the "
                "oldest pending node's link is missing, quiescence makes everything visible, the pending links reveal everything; composed with the wake-up protocol "
                "(counter incremented after both steps) the mailbox invariant and no_lost_wakeup are unaffected. Tied to the real queue by run mpsc: producer/consumer "
-               "goroutines parked before the swap, between swap and link, and before each Pop.",
+               "goroutines parked before the swap, between swap and link, and before each Pop. "
+               "Several mailboxes on one scheDisp (9-slot channel, one loop goroutine): for every sequence of posts and handler releases the channel stays within 9 slots, every "
+               "pending message has a buffered/blocked/executing run, per mailbox delivered ++ pending = posted in order, and an idle loop means everything was delivered "
+               "(sched_*); tied to the real scheDisp + run service + real mailboxes by run sched, which also demands loop-goroutine-only and never-two-at-a-time.",
     level_note="Partial: atomics are assumed sequentially consistent single steps; in the mailbox's Fine model goring/mpsc are FIFO lists and mpsc.Push is one step "
                "(sequential refinement to a list, ring growth included: ring_*/mpsc_push_refines/mpsc_pop_refines, run ring; mpsc's swap/link window and arbitrary producer "
                "interleavings: mpsc_delivers_swap_order … mailbox_no_lost_wakeup_split_push, run mpsc; that Fine with the split push refines the composed system beyond the "
                "system-queue/wake-up part is argued in Props/C09Mpsc.lean, not proved; goring's concurrent behaviour rests on its mutex); run()'s plain read of userMessages, the >=100000-queued Gosched branch and the recover/EscalateFailure path are not modelled; "
                "the dispatcher is the single-consumer scheDisp (one goroutine runs scheduled functions in turn). The Go scheduler itself is replaced by the controller.",
-    lean_targets=["Cell2v.Props.C09", "Cell2v.Props.C09Ring", "Cell2v.Props.C09Mpsc", "modeld_c09"],
+    lean_targets=["Cell2v.Props.C09", "Cell2v.Props.C09Ring", "Cell2v.Props.C09Mpsc", "Cell2v.Props.C09Sched", "modeld_c09"],
     driver="modeld_c09",
     driver_root="Cell2v.Driver.C09",
     audit="Audit/C09.lean",
@@ -29,7 +32,8 @@ CONFIG = dict(
                        "mpsc_push_refines", "mpsc_pop_refines",
                        "mpsc_chain_invariant", "mpsc_delivers_swap_order", "mpsc_per_producer_fifo", "mpsc_pop_blocked_only_by_unlinked",
                        "mpsc_pop_delivers_oldest", "mpsc_quiescent_all_visible", "mpsc_link_reveals",
-                       "mailbox_pushS_is_swap_link", "mailbox_popS_is_list_pop", "mailbox_sysqueue_invariant", "mailbox_no_lost_wakeup_split_push"],
+                       "mailbox_pushS_is_swap_link", "mailbox_popS_is_list_pop", "mailbox_sysqueue_invariant", "mailbox_no_lost_wakeup_split_push",
+                       "sched_channel_bounded", "sched_exactly_once_in_order", "sched_idle_all_delivered", "sched_idle_delivered_eq_posted", "sched_pending_has_run"],
     # hook H2 (vy("mp.swap") / vy("mp.link") / vy("mp.pop") in actorex/queue/mpsc) is committed in /repo as 3b9fc55
     harness_pkg="./c09",
     mode="diff",
@@ -37,9 +41,11 @@ CONFIG = dict(
     runs={
         "quick": [dict(name="ring", test="TestRing", env={"VERIF_N": "150"}, timeout=120),
                   dict(name="mpsc", test="TestMpsc", env={"VERIF_N": "1500"}, timeout=120),
+                  dict(name="sched", test="TestSched", env={"VERIF_N": "60"}, timeout=120),
                   dict(name="main", env={"VERIF_N": "1500"}, timeout=240)],
         "thorough": [dict(name="ring", test="TestRing", env={"VERIF_N": "4000"}, timeout=120),
                      dict(name="mpsc", test="TestMpsc", env={"VERIF_N": "20000"}, timeout=300),
+                     dict(name="sched", test="TestSched", env={"VERIF_N": "1500"}, timeout=600),
                      dict(name="main", env={"VERIF_N": "40000"}, timeout=1500),
                      dict(name="seed2", env={"VERIF_N": "40000"}, seed_offset=7919, timeout=1500)],
     },
@@ -52,7 +58,12 @@ CONFIG = dict(
          "0/1/len-1/len/len+1/len+5; one evaluation = one queue operation compared with the ring model and checked against a plain list. "
          "Run mpsc: the real mpsc.Queue with 2-4 producer goroutines (1-3 values each) and one consumer (Pop, 1/5 Empty), one granted shared-memory step per op; schedules: uniform, "
          "sticky, consumer-eager, all-swap-then-links-in-random-order, and adversarial stall (one producer held between swap and link while the others complete their pushes and the "
-         "consumer pops: must see nil; then the link: everything arrives in swap order); every case runs until all values arrived and a final Pop answered nil",
+         "consumer pops: must see nil; then the link: everything arrives in swap order); every case runs until all values arrived and a final Pop answered nil. "
+         "Run sched: the real scheDisp/run service with 7-19 real mailboxes: a gated handler keeps the loop goroutine busy, foreign goroutines post to k mailboxes (systematic k=1..14; "
+         "random 5..20 posts incl. repeats and the busy mailbox itself), posters beyond the 9 slots block, release, posts to the idle dispatcher, optionally a second gated round; "
+         "per step: delivered ids, invocations off the loop goroutine, handlers in flight, blocked posters. "
+         "Run main additionally: slow SYSTEM handlers (pause started by a system message, incl. the directed suspend / slow system message / resume template) and schedule mode 4 "
+         "(delay-bounded victim: one poster takes 1-4 steps exactly when the consumer is about to store idle, then is held until the consumer finished going idle)",
     trusted_base=[
         "Lean 4.33.0 kernel; axioms audited per theorem (propext, Classical.choice, Quot.sound)",
         "hand-written models lean/Cell2v/Model/Mailbox.lean (Abs + Fine) tied to actorex/mailbox/mailbox.go by step-by-step replay (harness/c09 + modeld_c09)",
@@ -62,6 +73,7 @@ CONFIG = dict(
         "sync/atomic sequential consistency; goring operations are atomic single steps (mutex); mpsc at the granularity of one shared access per step "
         "(swap of head | store of prev.next | Pop = one atomic load of tail.next plus consumer-private work | Empty); node allocation/initialisation is goroutine-local",
         "hand-written model lean/Cell2v/Model/MpscConc.lean (concurrent mpsc) tied to actorex/queue/mpsc by harness/c09/mpsc_test.go (controller-driven real goroutines)",
+        "hand-written model lean/Cell2v/Model/SchedDisp.lean (dispatcher channel with several mailboxes; Go channel: blocked senders are admitted FIFO) tied to actorex/disp/schedisp.go by harness/c09/sched_test.go",
         "hand-written models lean/Cell2v/Model/Ring.lean (goring ring buffer, sequential mpsc) tied to actorex/queue/{goring,mpsc} by harness/c09/ring_test.go",
     ],
     assumptions=[
